@@ -13,11 +13,13 @@ import (
 	"encoding/pem"
 	"fmt"
 	"math/big"
+	"math/rand"
 	"net"
 	"os"
 	"path/filepath"
 	"strings"
 	"sync"
+	"sync/atomic"
 	"time"
 )
 
@@ -47,6 +49,9 @@ type simRequest struct {
 }
 
 var sim *simulator
+
+/* random response latency in microseconds (0 = none), for the concurrency stress */
+var simLatencyMicros int64
 
 const simHosts = 5
 
@@ -166,6 +171,9 @@ func (s *simulator) handle(raw net.Conn, cfg *tls.Config, authority string) {
 		conn.Write([]byte("HTTP/1.0 404 Not Found\r\nContent-Type: text/plain\r\n\r\nno route"))
 		conn.Close()
 		return
+	}
+	if max := atomic.LoadInt64(&simLatencyMicros); max > 0 {
+		time.Sleep(time.Duration(rand.Int63n(max)) * time.Microsecond)
 	}
 	body := []byte(rt.resp)
 	switch {
